@@ -648,7 +648,7 @@ fn observed_flush_guard_rounds(rng: &mut Rng, n: usize, rep: &Report) -> bool {
     use std::sync::atomic::{AtomicBool, Ordering::SeqCst};
     let shared: std::sync::Mutex<Option<Arc<SlotGuard<Child0>>>> = std::sync::Mutex::new(None);
     let gate = Barrier::new(2);
-    let (stop, quit) = (AtomicBool::new(false), AtomicBool::new(false));
+    let (stop, quit, started) = (AtomicBool::new(false), AtomicBool::new(false), AtomicBool::new(false));
     let mut ok = true;
     std::thread::scope(|s| {
         s.spawn(|| {
@@ -667,6 +667,7 @@ fn observed_flush_guard_rounds(rng: &mut Rng, n: usize, rep: &Report) -> bool {
                     buf.clear();
                     let _ = write!(buf, "{:?}", g);
                     formats += 1;
+                    started.store(true, SeqCst);
                 }
                 drop(g);
                 gate.wait();
@@ -683,10 +684,23 @@ fn observed_flush_guard_rounds(rng: &mut Rng, n: usize, rep: &Report) -> bool {
             let g0 = Arc::new(g0);
             *shared.lock().unwrap() = Some(g0.clone());
             stop.store(false, SeqCst);
-            let spins = rng.below(300);
+            started.store(false, SeqCst);
+            let spins = rng.below(200);
             gate.wait();
-            for _ in 0..spins {
-                std::hint::spin_loop();
+            // the observer is formatting in a tight loop by now: take the flush guard at a random
+            // phase of that loop
+            let mut waited = 0u32;
+            while !started.load(SeqCst) {
+                waited += 1;
+                if waited > 2000 {
+                    std::thread::yield_now();
+                } else {
+                    std::hint::spin_loop();
+                }
+            }
+            let mut x = 0u64;
+            for i in 0..spins {
+                x = std::hint::black_box(x.wrapping_mul(31).wrapping_add(i));
             }
             let fg = parent.flush_guard();
             stop.store(true, SeqCst);
@@ -695,18 +709,20 @@ fn observed_flush_guard_rounds(rng: &mut Rng, n: usize, rep: &Report) -> bool {
             g1.v1 = tok + 1;
             drop(parent);
             let early = sink.snapshot().len();
-            drop(g1);
-            let early2 = sink.snapshot().len();
+            // the observed guard goes first: from here on only slot 1's flush guard (the one taken
+            // while the observer was formatting) keeps the entry back
             let g0 = Arc::try_unwrap(g0).ok().expect("the observer gave its reference back");
             drop(g0);
+            let early2 = sink.snapshot().len();
+            drop(g1);
             let apps = sink.take();
             rep.eval();
             progress_tick();
             let c = apps.first().map(content);
             if early != 0 || early2 != 0 || apps.len() != 1 || c != Some((Some(tok + 2), Some(tok + 3), Some(tok), Some(tok + 1))) {
                 let kind = if early != 0 || early2 != 0 { "entry-appended-before-wait-mode-guard-dropped" } else if apps.len() != 1 { "entry-never-appended" } else { "wait-mode-slot-value-lost" };
-                rep.violation(kind, json!({"what": "slot 0 opened in wait mode; its guard Debug-formatted on another thread while the flush guard for slot 1 (wait mode) was taken; then parent, guard 1, guard 0 dropped in that order on one thread",
-                    "appended_after_parent_drop": early, "appended_after_guard1_drop": early2, "appended_at_end": apps.len(), "content(x,y,v0,v1)": format!("{c:?}"), "expected": format!("{:?}", (tok + 2, tok + 3, tok, tok + 1))}));
+                rep.violation(kind, json!({"what": "slot 0 opened in wait mode; its guard Debug-formatted on another thread while the flush guard for slot 1 (wait mode) was taken; then parent, guard 0, guard 1 dropped in that order on one thread",
+                    "appended_after_parent_drop": early, "appended_after_guard0_drop_with_guard1_alive": early2, "appended_at_end": apps.len(), "content(x,y,v0,v1)": format!("{c:?}"), "expected": format!("{:?}", (tok + 2, tok + 3, tok, tok + 1))}));
                 ok = false;
                 break;
             }
